@@ -9,6 +9,7 @@ import vlib
 from vlib import log, Inconclusive
 
 CB_OVERLAY = {"compose/zz_verif_cb_test.go": os.path.join(vlib.HARNESS, "compose", "zz_verif_cb_test.go")}
+ISO_OVERLAY = {"compose/zz_verif_cbiso_test.go": os.path.join(vlib.HARNESS, "compose", "zz_verif_cbiso_test.go")}
 OPT_OVERLAY = {"compose/zz_verif_opt_test.go": os.path.join(vlib.HARNESS, "compose", "zz_verif_opt_test.go")}
 
 
@@ -28,15 +29,15 @@ def cfg_text(consts, invariants, init="Init", nxt="Next", extra=""):
 
 # ------------------------------------------------------------------------------------------------ C10
 
-def cb_consts(shape, mg=1, mu=4, mo=4, md=2, multi=False, fail=True, fix=False, gen=False, late=False, norebind=False):
+def cb_consts(shape, mg=1, mu=4, mo=4, md=2, multi=False, fail=True, fix=False, gen=False, late=False, norebind=False, keepscope=False, extractfirst=False):
     return {"Shape": shape, "MaxGlobal": mg, "MaxUndes": mu, "MaxOpts": mo, "MaxDOpts": md, "Multi": multi, "AllowFail": fail,
-            "CopyFix": fix, "Gen": gen, "LateFlag": late, "NoRebind": norebind}
+            "CopyFix": fix, "Gen": gen, "LateFlag": late, "NoRebind": norebind, "KeepScope": keepscope, "ExtractFirst": extractfirst}
 
 
 def cb_model(shape, *, fix, timeout=600, workers=4, **kw):
     """Impl => P on the model: Callbacks.tla (as coded, or with the proposed repair) judged by CbRule."""
     c = cb_consts(shape, fix=fix, gen=False, **kw)
-    name = "mc_cb_%s_%s%s.cfg" % (shape, "fix" if fix else "asis", "_late" if kw.get("late") else "_norebind" if kw.get("norebind") else "")
+    name = "mc_cb_%s_%s%s.cfg" % (shape, "fix" if fix else "asis", "_late" if kw.get("late") else "_norebind" if kw.get("norebind") else "_keepscope" if kw.get("keepscope") else "_xfirst" if kw.get("extractfirst") else "")
     return vlib.tlc("Callbacks", name, files={name: cfg_text(c, ("RuleOK",))}, workers=workers, timeout=timeout, heap="4g")
 
 
@@ -163,6 +164,10 @@ def _replay(overlay, test, what, cases, marker, *, race=False, timeout=900, repo
 
 def cb_replay(cases, **kw):
     return _replay(CB_OVERLAY, "TestVerifCb", "C10 replay", cases, "VERIF-CB", crash_ok=True, **kw)
+
+
+def iso_replay(cases, **kw):
+    return _replay(ISO_OVERLAY, "TestVerifCbIso", "C09 callback isolation replay", cases, "VERIF-CBISO", **kw)
 
 
 def opt_replay(cases, **kw):
